@@ -25,6 +25,9 @@ def programs():
         "mean_hw_keepdims": (lambda x: jnp.mean(x, axis=(1, 2), keepdims=True) + x, 1),
         "two_outputs_multi_consumer": (lambda x: (jnp.maximum(x, 0.0), x * 2.0), 1),
         "output_is_input": (lambda x, y: (x, x + y), 2),
+        # an image argument the callable ignores (auxiliary input): flagged or not, it stays in the signature
+        "ignored_first_input": (lambda x, y: y * 2.0 + 1.0, 2),
+        "ignored_second_input": (lambda x, y: jnp.maximum(x, 0.25), 2),
         "mixed_rank_outputs": (lambda x: (x * 3.0, jnp.sum(x, axis=(1, 2, 3))), 1),
         "transpose_inside": (lambda x: jnp.transpose(jnp.transpose(x, (0, 3, 1, 2)) * 2.0, (0, 2, 3, 1)), 1),
         "reshape_inside": (lambda x: x.reshape(x.shape[0], -1, x.shape[3]).reshape(x.shape) + 1.0, 1),
@@ -89,6 +92,10 @@ def run_program(name: str, quick: bool) -> dict[str, Any]:
                     out["cases"].append(rec)
                     continue
                 feeds = {}
+                if len(m.graph.input) != len(plain.graph.input):
+                    rec.update(ok=False, why=f"the layout selection changed the model signature: plain export has inputs {[i.name for i in plain.graph.input]}, flagged export has {[i.name for i in m.graph.input]}")
+                    out["cases"].append(rec)
+                    continue
                 for k, (vi, x) in enumerate(zip(m.graph.input, xs)):
                     feeds[vi.name] = _nchw(x) if k in ins else x
                     want_shape = list(_nchw(x).shape if k in ins else x.shape)
